@@ -6,11 +6,11 @@ import (
 	"verif/mc"
 )
 
-var paths = []string{"/a", "/d", "/d/b", "/d/s", "/d/s/c"}
+var paths = []string{"/a", "/d", "/d/b", "/d/c", "/d/c/a"}
 
 func Main() {
 	mc.Main("C21", "model_checking",
-		"explicit-state search (breadth first, replay from the empty store) over all histories of create/overwrite / update through a name (replace content, add chunk, chmod) / append / hard link (the Dir.Link request pair) / rename / delete (recursive x deleteData) on the paths {/a,/d,/d/b,/d/s,/d/s/c} (a hard-linked name can sit two levels below a directory that is deleted recursively), executed on the real FilerServer gRPC methods; link membership is tracked by a reference tree; distinct = (operation, flags, kind of source, kind of target, outcome, store changed)",
+		"explicit-state search (breadth first, replay from the empty store) over all histories of create/overwrite / update through a name (replace content, add chunk, chmod) / append / hard link (the Dir.Link request pair) / rename / delete (recursive x deleteData) on the paths {/a,/d,/d/b,/d/c,/d/c/a} (a hard-linked name can sit two levels below a directory that is deleted recursively), executed on the real FilerServer gRPC methods; link membership is tracked by a reference tree; distinct = (operation, flags, kind of source, kind of target, outcome, store changed)",
 		func(r *mc.Run) {
 			fsys.Run(r, &fsys.Config{
 				ID: "C21",
